@@ -247,5 +247,21 @@ Theorem C20_summary_period : forall e0 i r0 w m n b, 0 <= e0 <= 4 / 10 -> 64 / 1
 Proof. exact P_OePeriod.oe_period_close. Qed.
 Print Assumptions C20_summary_period.
 
+(* THE ORBIT-SUMMARY CLAUSE against the TRAJECTORY, drag-free case (at epoch, or B* = 0 at any time; accepted set, e0 <= 0.39,
+   6.4 <= n <= 17 rev/day): the geocentric distance of every returned state is at least the EXPOSED perigee height plus one earth
+   radius minus 41.3 km, and at most the EXPOSED semi-major axis times (1 + e0) plus 42 km.  (The property's other direction - the
+   minimum distance comes within 30 km of the exposed perigee - is a statement about the whole revolution and is sampled.) *)
+From PyOrb.proofs Require P_OeBand.
+Theorem C20_distance_within_summary_band : forall e0 i r0 w m n b ts,
+  gen_init_outcome e0 i r0 w m n b = InitMode NearNorm 1 -> b = 0 \/ ts = 0 ->
+  0 < e0 <= 39 / 100 -> 64 / 10 <= n <= 17 ->
+  forall j Ew radius theta eqinc ascn rdk rfdk smjaxs,
+  gen_nn1_prop_outcome e0 i r0 w m n b ts = PropOk j ->
+  exit_ok e0 i r0 w m n b ts Ew radius theta eqinc ascn rdk rfdk smjaxs ->
+  gen_oe_perigee e0 i r0 w m n b + XKMPER - 413 / 10 <= radius <=
+  gen_oe_semi_major_axis e0 i r0 w m n b * (1 + e0) * XKMPER + 42.
+Proof. exact P_OeBand.distance_within_summary_band. Qed.
+Print Assumptions C20_distance_within_summary_band.
+
 Example C20_inhabited : 0 < 7000 * (15 / 2).
 Proof. lra. Qed.
